@@ -54,7 +54,7 @@ struct World {
         { sim::NoSched ns; r.where = "finished"; r.done = true; w->ndone++; sim::ev(0xD07E, id); }
         // stay alive (and interruptible) until every script is over, so that nobody
         // interrupts or inspects a thread whose stack has been released
-        while (!w->all_done()) photon::thread_usleep(700);
+        while (!w->all_done()) photon::thread_usleep(10000);
         return nullptr;
     }
 
@@ -83,7 +83,7 @@ struct World {
                 { char b[96]; snprintf(b, sizeof b, " | detected on vcpu%d photon::now=%llu sim_us=%llu", v, (unsigned long long)photon::now, (unsigned long long)(sim::now_ns() / 1000)); s += b; }
                 sim::finish("viol", "stuck", "threads still blocked at sim deadline:%s", s.c_str());
             }
-            photon::thread_usleep(1500);
+            photon::thread_usleep(2500);
         }
         for (auto h : jh) photon::thread_join(h);
         if (vcpu_end) vcpu_end(v);
